@@ -156,7 +156,18 @@ def programs(draw, opts=None):
                 body.append(["cls", 0, enc(draw(st.sampled_from([1, "c", 2.5])))])
         return body, is_unique
 
-    for i in range(nfuncs):
+    motif = None
+    if opts.get("motifs", True) and nfuncs >= 3 and draw(st.integers(0, 3)) == 0:
+        # planted shape: helper H(x=<default>) passes its parameter to a keep; the root calls H with an explicit argument
+        prog["funcs"].append({"name": "f0", "mod": 0, "params": [["x", NO]], "ver": 0, "pad": 0, "data": None, "body": [["ext", 0]]})
+        hb = [["keep", new_path(), 0, "bare", [["par", "x"]]]]
+        if draw(st.booleans()):
+            hb.insert(0, ["ext", 1])
+        prog["funcs"].append({"name": "f1", "mod": 0, "params": [["x", enc(draw(st.sampled_from(LIT_VALUES)))]], "ver": 0, "pad": 0, "data": None, "body": hb})
+        unique.add(1)
+        referenced.add(0)
+        motif = 1
+    for i in range(len(prog["funcs"]), nfuncs):
         if class_at == i and not prog["classes"]:
             cbody, cuniq = gen_body(i, mod, [], allow_keep=False, maxlen=2)
             prog["classes"].append({"name": "C0", "mod": mod, "ver": 0, "pad": 0, "body": cbody})
@@ -179,6 +190,16 @@ def programs(draw, opts=None):
             f["ret"] = draw(st.sampled_from(["tuple", "tuple", "text", "bytes"]))
         prog["funcs"].append(f)
         body, is_unique = gen_body(i, mod, [p for p, _ in params])
+        if last and motif is not None and motif not in referenced:
+            sp = draw(st.sampled_from(["pos", "kw"]))
+            marg = [["lit", enc(draw(st.sampled_from(LIT_VALUES))), sp]] if draw(st.booleans()) else [["omit"]]
+            body.insert(0, ["call", motif, draw(st.sampled_from(M.FORMS)), marg])
+            for stt in body[1:]:   # local result indices shift by one
+                for a in (stt[4] if stt[0] == "keep" else (stt[3] if stt[0] == "call" and len(stt) > 3 else [])):
+                    if a[0] == "loc":
+                        a[1] += 1
+            referenced.add(motif)
+            is_unique = True
         f["body"] = body
         if is_unique and not data:
             unique.add(i)
